@@ -101,20 +101,23 @@ int main(int argc, char **argv)
 			xmp_end_player(c);
 		}
 		/* every further sequence (up to 8): from its entry point until the loop counter increments; per sequence the number of
-		 * frames rendered at each tempo ("SQ i entry looped reported-pos-of-first-frame | bpm:frames ...") */
+		 * frames rendered at each tempo ("SQ i entry looped reported-pos-of-first-frame rate delivered-sample-frames | bpm:frames ...") */
 		for (i = 1; (force || !outside) && i < mi.num_sequences && i <= 8; i++) {
 			static int hist[256]; int looped = 0, firstpos = -1, b;
+			/* the player is started again on the same context, at another sampling rate each time; the audio delivered (sample frames
+			 * of the 8-bit mono buffers) is counted next to the tempo of every frame */
+			int srate = (i & 1) ? 11025 : 22050; long delivered = 0;
 			memset(hist, 0, sizeof hist);
-			if (xmp_start_player(c, 8000, XMP_FORMAT_MONO | XMP_FORMAT_8BIT) != 0) break;
+			if (xmp_start_player(c, srate, XMP_FORMAT_MONO | XMP_FORMAT_8BIT) != 0) break;
 			xmp_set_position(c, mi.seq_data[i].entry_point);
 			for (n = 0; n < maxframes; n++) {
 				if (xmp_play_frame(c) < 0) break;
 				xmp_get_frame_info(c, &fi);
 				if (firstpos < 0) firstpos = fi.pos;
 				if (fi.loop_count > 0) { looped = 1; break; }
-				if (fi.bpm > 0 && fi.bpm < 256) hist[fi.bpm]++;
+				if (fi.bpm > 0 && fi.bpm < 256) { hist[fi.bpm]++; delivered += fi.buffer_size; }
 			}
-			printf("SQ %d %d %d %d |", i, mi.seq_data[i].entry_point, looped, firstpos);
+			printf("SQ %d %d %d %d %d %ld |", i, mi.seq_data[i].entry_point, looped, firstpos, srate, delivered);
 			for (b = 0; b < 256; b++) if (hist[b]) printf(" %d:%d", b, hist[b]);
 			printf("\n");
 			xmp_end_player(c);
